@@ -185,8 +185,8 @@ Inductive Step (g : cfg) (s : state) : action -> state -> list event -> Prop :=
 | S_new_static c p0 :
     p0 = match aget c (peers s) with Some p => p | None => new_peer end ->
     p_static p0 = true ->
-    Step g s (ANewPeer c) (upd_peers s (aset c (set_status p0 Connecting) (peers s)))
-         (match p_chal p0 with Some ch => [EStale c ch; EReset c] | None => [EReset c] end)
+    Step g s (ANewPeer c)
+         (upd_peers s (aset c (set_chal (set_status p0 Connecting) None) (peers s))) [EReset c]
 | S_new_dyn c p0 :
     p0 = match aget c (peers s) with Some p => p | None => new_peer end ->
     p_static p0 = false ->
@@ -299,7 +299,7 @@ Proof.
   - (* new peer *)
     remember (match aget c (peers s) with Some p => p | None => new_peer end) as p0 eqn:Hp0.
     destruct (p_static (set_status p0 Connecting)) eqn:Hst; injection H as <- <- <-.
-    + change (p_chal (set_status p0 Connecting)) with (p_chal p0). eapply S_new_static; eauto.
+    + eapply S_new_static; eauto.
     + eapply S_new_dyn; eauto.
   - (* challenge *)
     destruct (aget c (peers s)) as [p|] eqn:Hp.
@@ -372,8 +372,6 @@ Fixpoint since_issue (c ch : N) (tr : list event) : Prop :=
   | [] => False
   | e :: l => e = EIssued c ch \/ (closes c e = false /\ since_issue c ch l)
   end.
-Definition is_stale (e : event) : bool := match e with EStale _ _ => true | _ => false end.
-Definition has_stale (tr : list event) : bool := existsb is_stale tr.
 
 (* what must hold of the events that happened before [e] *)
 Definition ev_ok (e : event) (l : list event) : Prop :=
@@ -381,7 +379,7 @@ Definition ev_ok (e : event) (l : list event) : Prop :=
   | EIssued c ch => Forall (ev_lt ch) l
   | EAccepted c K ch =>
       In (ESigned K ch) l /\ In (EIssued c ch) l /\ (forall c' k', ~ In (EAccepted c' k' ch) l)
-      /\ (has_stale l = false -> since_issue c ch l)
+      /\ since_issue c ch l
   | _ => True
   end.
 Fixpoint trace_ok (tr : list event) : Prop :=
@@ -433,7 +431,7 @@ Qed.
 Lemma session_in c tr K ch : session c tr = Some (K, ch) -> In (EAccepted c K ch) tr.
 Proof.
   induction tr as [|e l IH]; cbn [session]; [discriminate|].
-  destruct e as [c' ch'|k m|c' k ch'|c'|c'|c'|c' ch']; try (intros H; right; apply IH; exact H).
+  destruct e as [c' ch'|k m|c' k ch'|c'|c'|c']; try (intros H; right; apply IH; exact H).
   - destruct (N.eqb_spec c' c); intros H; [inv H; left; reflexivity|right; apply IH; exact H].
   - destruct (c' =? c); intros H; [discriminate|right; apply IH; exact H].
   - destruct (c' =? c); intros H; [discriminate|right; apply IH; exact H].
@@ -483,7 +481,7 @@ Record Inv (tr : list event) (s : state) : Prop := mkInv {
                exists K ch, p_pk p = Some K /\ session c tr = Some (K, ch);
   i_trace  : trace_ok tr;
   i_fresh  : forall c p ch, aget c (peers s) = Some p -> p_chal p = Some ch ->
-               has_stale tr = false -> since_issue c ch tr;
+               since_issue c ch tr;
 }.
 
 Lemma static_peers_in n kv : In kv (static_peers n) -> 1 <= fst kv <= N.of_nat n /\ snd kv = static_peer.
@@ -534,9 +532,6 @@ Qed.
 
 Ltac solve_in := repeat (first [left; reflexivity | right]); assumption.
 
-Lemma has_stale_app a b : has_stale (a ++ b) = has_stale a || has_stale b.
-Proof. apply existsb_app. Qed.
-
 Lemma since_issue_app_skip c ch ev l :
   (forall e, In e ev -> closes c e = false) -> since_issue c ch l -> since_issue c ch (ev ++ l).
 Proof.
@@ -569,8 +564,7 @@ Lemma Inv_frame tr s ps' ad' nx' nw' ev :
   (forall c p', aget c ps' = Some p' ->
      (exists p, aget c (peers s) = Some p /\ weaker c p p' /\
                 (p_status p' = Connected -> forall e, In e ev -> touches c e = false) /\
-                (p_chal p' <> None ->
-                   has_stale ev = true \/ forall e, In e ev -> closes c e = false))
+                (p_chal p' <> None -> forall e, In e ev -> closes c e = false))
      \/ (p_chal p' = None /\ p_status p' <> Connected)) ->
   Inv (ev ++ tr) (mkS ps' ad' nx' nw' (signed s)).
 Proof.
@@ -592,11 +586,10 @@ Proof.
     destruct (Hcn _ _ Hg (Hst Hc)) as [K [ch [HK Hses]]]. exists K, ch. split; [congruence|].
     rewrite session_app_skip; [exact Hses|]. apply Hto; exact Hc.
   - apply trace_ok_neutral; [|exact Htr]. intros e Hin. apply Hev; exact Hin.
-  - intros c p' ch Hget Hc Hst. rewrite has_stale_app in Hst. apply orb_false_iff in Hst as [Hst1 Hst2].
+  - intros c p' ch Hget Hc.
     destruct (Hp _ _ Hget) as [[p [Hg [[Hw _] [_ Hcl]]]]|[Hnone _]]; [|congruence].
     destruct Hw as [Hw|Hw]; [|congruence].
-    destruct Hcl as [Hcl|Hcl]; [congruence|congruence|].
-    apply since_issue_app_skip; [exact Hcl|]. rewrite Hw in Hc. eapply Hfr; eauto.
+    apply since_issue_app_skip; [apply Hcl; congruence|]. rewrite Hw in Hc. eapply Hfr; eauto.
 Qed.
 
 Lemma neutral_reset c nx e : In e [EReset c] -> neutral e /\ ev_lt nx e.
@@ -617,26 +610,14 @@ Proof.
     | c r pref p l Hp | c ext p Hp
     | c r pref p l ch Hp Hpc Hver Hkd
     | c r pref p l ch idx old Hp Hpc Hver Hkd Hne Hold Hopk Host | | k m].
-  - (* new peer, static: the stored challenge (if any) survives *)
-    set (evs := match p_chal p0 with Some ch => [EStale c ch; EReset c] | None => [EReset c] end).
-    assert (Hevs : forall e, In e evs -> (exists ch, e = EStale c ch) \/ e = EReset c).
-    { unfold evs. destruct (p_chal p0); intros e Hin; cbn [In] in Hin;
-        repeat (destruct Hin as [<-|Hin]; eauto); destruct Hin. }
+  - (* new peer, static: a stored challenge is discarded *)
     unfold upd_peers. apply Inv_frame;
-      [exact HI|apply ksorted_aset; exact Hs|lia| |].
-    { intros e Hin. destruct (Hevs _ Hin) as [[ch ->]| ->]; split; exact I. }
+      [exact HI|apply ksorted_aset; exact Hs|lia|intros e; apply neutral_reset|].
     intros c0 p' Hget. apply aget_aset_cases in Hget as [[-> ->]|[Hn Hget]].
-    + destruct (aget c (peers s)) as [p|] eqn:Hp.
-      * subst p0. left. exists p. split; [reflexivity|]. split; [|split; [cbn; discriminate|]].
-        { repeat split; cbn; auto; discriminate. }
-        cbn [set_status p_chal]. intros Hc. left. unfold evs.
-        destruct (p_chal p); [reflexivity|contradiction].
-      * subst p0. right. cbn. split; [reflexivity|discriminate].
+    + right. cbn. split; [reflexivity|discriminate].
     + left. exists p'. split; [exact Hget|]. split; [apply weaker_refl|]. split.
-      * intros _ e Hin. destruct (Hevs _ Hin) as [[ch ->]| ->]; cbn; [reflexivity|].
-        apply N.eqb_neq; congruence.
-      * intros _. right. intros e Hin. destruct (Hevs _ Hin) as [[ch ->]| ->]; cbn; [reflexivity|].
-        apply N.eqb_neq; congruence.
+      * intros _ e [<-|[]]. cbn. apply N.eqb_neq; congruence.
+      * intros _ e Hin. eapply closes_other; eauto.
   - (* new peer, handshake initiated *)
     assert (Hnoacc : forall c' k', ~ In (EAccepted c' k' (next s)) tr).
     { intros c' k' Hin. rewrite Forall_forall in Hv. specialize (Hv _ Hin). cbn in Hv. lia. }
@@ -656,7 +637,7 @@ Proof.
         cbn [session]. destruct (N.eqb_spec c c0); [congruence|exact Hses].
     + cbn [trace_ok ev_ok]. split; [|split; [exact I|exact Htr]].
       constructor; [exact I|exact Hv].
-    + intros c0 p' ch Hget Hc Hstale. apply aget_aset_cases in Hget as [[-> ->]|[Hn Hget]].
+    + intros c0 p' ch Hget Hc. apply aget_aset_cases in Hget as [[-> ->]|[Hn Hget]].
       * cbn in Hc. inv Hc. left. reflexivity.
       * cbn [since_issue]. right. split; [reflexivity|]. right. split.
         { cbn. apply N.eqb_neq; congruence. }
@@ -664,14 +645,14 @@ Proof.
   - (* nothing happens *)
     apply (Inv_frame tr s (peers s) (addr s) nx nw []); auto; [intros e []|].
     intros c p' Hget. left. exists p'. split; [exact Hget|]. split; [apply weaker_refl|].
-    split; [intros _ e []|]. intros _. right. intros e [].
+    split; [intros _ e []|]. intros _ e [].
   - (* rate limited *)
     apply (Inv_frame tr s _ (addr s) nx (now s) []); auto using ksorted_aset; [intros e []|].
     intros c0 p' Hget. apply aget_aset_cases in Hget as [[-> ->]|[Hn Hget]]; left.
     + exists p. split; [exact Hp|]. split; [repeat split; cbn; auto|].
-      split; [intros _ e []|]. intros _. right. intros e [].
+      split; [intros _ e []|]. intros _ e [].
     + exists p'. split; [exact Hget|]. split; [apply weaker_refl|].
-      split; [intros _ e []|]. intros _. right. intros e [].
+      split; [intros _ e []|]. intros _ e [].
   - (* challenge answered: signs x, issues a fresh challenge *)
     pose proof (bump_ge s x) as Hge. pose proof (bump_gt s x) as Hgt.
     assert (Hnoacc : forall c' k', ~ In (EAccepted c' k' (bump s x)) tr).
@@ -692,7 +673,7 @@ Proof.
       * destruct (Hcn _ _ Hget Hc) as [K [ch [HK Hses]]]. exists K, ch. split; [exact HK|]. exact Hses.
     + cbn [trace_ok ev_ok]. split; [|split; [exact I|exact Htr]].
       constructor; [cbn; lia|]. eapply Forall_ev_lt_mono; [|exact Hv]. exact Hge.
-    + intros c0 p' ch Hget Hc Hstale. apply aget_aset_cases in Hget as [[-> ->]|[Hn Hget]].
+    + intros c0 p' ch Hget Hc. apply aget_aset_cases in Hget as [[-> ->]|[Hn Hget]].
       * cbn in Hc. inv Hc. left. reflexivity.
       * cbn [since_issue]. right. split; [reflexivity|]. right. split; [reflexivity|].
         eapply Hfr; eauto.
@@ -703,7 +684,7 @@ Proof.
     + right. cbn. split; [reflexivity|discriminate].
     + left. exists p'. split; [exact Hget|]. split; [apply weaker_refl|]. split.
       * intros _ e [<-|[]]. cbn. apply N.eqb_neq; congruence.
-      * intros _. right. intros e Hin. eapply closes_other; eauto.
+      * intros _ e Hin. eapply closes_other; eauto.
   - (* disconnect *)
     unfold upd_peers. apply Inv_frame;
       [exact HI|apply ksorted_aset; exact Hs|lia|intros e; apply neutral_reset|].
@@ -711,7 +692,7 @@ Proof.
     + right. cbn. split; [reflexivity|discriminate].
     + left. exists p'. split; [exact Hget|]. split; [apply weaker_refl|]. split.
       * intros _ e [<-|[]]. cbn. apply N.eqb_neq; congruence.
-      * intros _. right. intros e Hin. eapply closes_other; eauto.
+      * intros _ e Hin. eapply closes_other; eauto.
   - (* accepted *)
     pose proof (verify_true _ _ _ Hver) as Hsig.
     cbn [act_ok] in Hok. rewrite Hsig in Hok. apply in_signed_In in Hok. apply Hsg in Hok.
@@ -726,12 +707,10 @@ Proof.
       destruct (p_static p); [destruct Hin|]. destruct Hin as [<-|[]]. left; reflexivity. }
     assert (Htr' : trace_ok (accept_events g p r c ch ++ tr)).
     { unfold accept_events. destruct (p_static p); cbn [app trace_ok ev_ok]; repeat split; auto;
-        intros Hst; eapply Hfr; eauto. }
+        eapply Hfr; eauto. }
     assert (Hses : forall c0, session c0 (accept_events g p r c ch ++ tr) =
                               if c =? c0 then Some (K, ch) else session c0 tr).
     { intros c0. unfold accept_events. destruct (p_static p); cbn [app session]; reflexivity. }
-    assert (Hstale : has_stale (accept_events g p r c ch ++ tr) = has_stale tr).
-    { unfold accept_events. destruct (p_static p); reflexivity. }
     assert (Hncl : forall c0 e, In e (accept_events g p r c ch) -> closes c0 e = false).
     { intros c0 e Hin. destruct (Hevs _ Hin) as [->| ->]; reflexivity. }
     constructor; cbn [peers next signed].
@@ -754,7 +733,7 @@ Proof.
       * destruct (Hcn _ _ Hget Hc) as [K0 [ch0 [HK Hs0]]]. exists K0, ch0. split; [exact HK|].
         rewrite Hses. destruct (N.eqb_spec c c0); [congruence|exact Hs0].
     + exact Htr'.
-    + intros c0 p' ch0 Hget Hc Hst. rewrite Hstale in Hst.
+    + intros c0 p' ch0 Hget Hc.
       apply aget_aset_cases in Hget as [[-> ->]|[Hn Hget]]; [cbn in Hc; discriminate|].
       apply since_issue_app_skip; [apply Hncl|]. eapply Hfr; eauto.
   - (* accepted as a reconnection *)
@@ -771,12 +750,10 @@ Proof.
       destruct (p_static p); [destruct Hin|]. destruct Hin as [<-|[]]. left; reflexivity. }
     assert (Htr' : trace_ok (accept_events g p r c ch ++ tr)).
     { unfold accept_events. destruct (p_static p); cbn [app trace_ok ev_ok]; repeat split; auto;
-        intros Hst; eapply Hfr; eauto. }
+        eapply Hfr; eauto. }
     assert (Hses : forall c0, session c0 (accept_events g p r c ch ++ tr) =
                               if c =? c0 then Some (K, ch) else session c0 tr).
     { intros c0. unfold accept_events. destruct (p_static p); cbn [app session]; reflexivity. }
-    assert (Hstale : has_stale (accept_events g p r c ch ++ tr) = has_stale tr).
-    { unfold accept_events. destruct (p_static p); reflexivity. }
     assert (Hncl : forall c0 e, In e (accept_events g p r c ch) -> closes c0 e = false).
     { intros c0 e Hin. destruct (Hevs _ Hin) as [->| ->]; reflexivity. }
     assert (Hget' : forall c0 p', aget c0 (aset c (mkP Connected (p_static old) None (Some K) (r_cver r)
@@ -808,9 +785,7 @@ Proof.
         destruct (N.eqb_spec idx c0); [congruence|].
         rewrite Hses. destruct (N.eqb_spec c c0); [congruence|exact Hs0].
     + cbn [app trace_ok ev_ok]. split; [exact I|exact Htr'].
-    + intros c0 p' ch0 Hget Hc Hst. cbn [app] in Hst |- *.
-      change (has_stale (ERemoved idx :: accept_events g p r c ch ++ tr))
-        with (has_stale (accept_events g p r c ch ++ tr)) in Hst. rewrite Hstale in Hst.
+    + intros c0 p' ch0 Hget Hc. cbn [app].
       apply Hget' in Hget as [[-> [Hcn0 _]]|[Hn [Hni Hget]]]; [congruence|].
       cbn [since_issue]. right. split; [cbn; apply N.eqb_neq; congruence|].
       apply since_issue_app_skip; [apply Hncl|]. eapply Hfr; eauto.
@@ -830,7 +805,7 @@ Proof.
       destruct (purgeable (now s) (c, p)) eqn:Hpg; cbn [negb] in Hget; [discriminate|]. inv Hget.
       left. exists p'. split; [reflexivity|]. split; [apply weaker_refl|]. split.
       * intros _ e Hin. eapply Hgone; eauto.
-      * intros _. right. intros e Hin. eapply Hgone; eauto.
+      * intros _ e Hin. eapply Hgone; eauto.
   - (* a remote key holder signs *)
     pose proof (bump_ge s m) as Hge. pose proof (bump_gt s m) as Hgt.
     constructor; cbn [peers next signed app].
@@ -842,7 +817,7 @@ Proof.
     + intros c p Hget Hc. destruct (Hcn _ _ Hget Hc) as [K [ch [HK Hses]]]. exists K, ch.
       split; [exact HK|exact Hses].
     + cbn [trace_ok ev_ok]. split; [exact I|exact Htr].
-    + intros c p ch Hget Hc Hst. cbn [since_issue]. right. split; [reflexivity|]. eapply Hfr; eauto.
+    + intros c p ch Hget Hc. cbn [since_issue]. right. split; [reflexivity|]. eapply Hfr; eauto.
 Qed.
 
 (* ------------------------------------------------------------------ *)
@@ -1066,23 +1041,15 @@ Proof. intros HR. apply step_no_panic. apply (Reach_Inv _ _ _ _ _ HR). Qed.
 (* ------------------------------------------------------------------ *)
 (* the accepted challenge belongs to the current connection             *)
 (* ------------------------------------------------------------------ *)
-(* a run in which a static entry was re-opened while a challenge of its
-   previous connection was still stored *)
-Definition Known_C17_stale (tr : list event) : Prop := has_stale tr = true.
-
 Theorem accepted_on_this_connection g n f0 tr s c K ch :
-  Reach g n f0 tr s -> ~ Known_C17_stale tr -> In (EAccepted c K ch) tr ->
+  Reach g n f0 tr s -> In (EAccepted c K ch) tr ->
   exists l1 l2 l3, tr = l3 ++ EAccepted c K ch :: l2 ++ EIssued c ch :: l1
                    /\ forall e, In e l2 -> closes c e = false.
 Proof.
-  intros HR Hk Hin. apply Reach_Inv in HR. destruct HR as [_ _ _ _ _ Htr _].
-  assert (Hst : has_stale tr = false).
-  { unfold Known_C17_stale in Hk. destruct (has_stale tr); [exfalso; auto|reflexivity]. }
+  intros HR Hin. apply Reach_Inv in HR. destruct HR as [_ _ _ _ _ Htr _].
   apply in_split in Hin as [l3 [l ->]].
   destruct (trace_ok_split _ _ _ Htr) as [[_ [_ [_ Hfresh]]] _].
-  rewrite has_stale_app in Hst. apply orb_false_iff in Hst as [_ Hst].
-  cbn [has_stale existsb is_stale orb] in Hst. fold (has_stale l) in Hst.
-  destruct (since_issue_split _ _ _ (Hfresh Hst)) as [l2 [l1 [-> Hl2]]].
+  destruct (since_issue_split _ _ _ Hfresh) as [l2 [l1 [-> Hl2]]].
   exists l1, l2, l3. split; [reflexivity|exact Hl2].
 Qed.
 
@@ -1399,24 +1366,22 @@ Proof.
   do 3 eexists. split; [exact HR|]. vm_compute. repeat split; reflexivity.
 Qed.
 
-(* a challenge of the previous connection survives the re-dial of a static entry:
-   a challenge arrives on the static entry 1 while it is not connected (message in
-   flight after a disconnect), the node answers and stores challenge 6; the entry
-   is re-dialled (reset), and a response over 6 is accepted on the new connection *)
+(* regression (fix 8a16f73): a challenge arrives on the static entry 1 while it is
+   not connected, the node answers and stores challenge 6; the entry is re-dialled,
+   which discards 6; a response over 6 on the new connection is unsolicited *)
 Definition stale_acts : list action :=
   [ADeliverChal 1 5; ANewPeer 1; ARemoteSign 2 6; ADeliverResp 1 (mkR 2 (Sig 2 6) 0 vA vW) 0].
 
-Lemma accepted_on_this_connection_refuted :
-  exists tr s p l1 l2 l3, Reach g1 1 1 tr s
-    /\ aget 1 (peers s) = Some p /\ p_status p = Connected /\ p_pk p = Some 2
-    /\ tr = l3 ++ EAccepted 1 2 6 :: l2 ++ EIssued 1 6 :: l1
-    /\ In (EReset 1) l2.
+Lemma stale_challenge_rejected :
+  exists tr s p, Reach g1 1 1 tr s
+    /\ In (EIssued 1 6) tr /\ In (ESigned 2 6) tr
+    /\ aget 1 (peers s) = Some p /\ p_status p = Disconnected /\ p_pk p = None
+    /\ addr s = [] /\ accepted_count 6 tr = 0%nat.
 Proof.
   destruct (run g1 (init 1 1) stale_acts) as [[s ev]| |] eqn:Hr; try (vm_compute in Hr; discriminate).
   pose proof (run_Reach g1 1 1 stale_acts [] (init 1 1) s ev (R_init _ _ _) eq_refl Hr) as HR.
   rewrite app_nil_r in HR. vm_compute in Hr. inv Hr.
-  eexists _, _, _, [ESigned 1 5], [ESigned 2 6; EStale 1 6; EReset 1], [].
-  split; [exact HR|]. vm_compute. repeat split; try reflexivity. right; right; left; reflexivity.
+  do 3 eexists. split; [exact HR|]. vm_compute. repeat split; try reflexivity; auto 10.
 Qed.
 
 (* reflection: the attacker opens 2 and 3, shows the challenge of 2 to the node
